@@ -161,6 +161,16 @@ def run_case(desc, V):
             claims.append(Eq(f'first-column[{i}]', np.asarray(Mx, dtype=object)[i, 0], X[k], fkey=f'hom|{fk}|first-column'))
         back = MultiVector.frommatrix(alg, Mx)
         claims += mv_eq_claims('frommatrix', back, X, fkey=f'hom|{fk}|frommatrix')
+        empty = alg.multivector(keys=(), values=[])
+        Me = empty.asmatrix()
+        if not hasattr(Me, 'shape') or tuple(Me.shape) != (2 ** alg.d,) * 2:
+            claims.append(Fail('empty:type', f'asmatrix() of the empty multivector is {Me!r}, not a {2 ** alg.d}x{2 ** alg.d} zero matrix', fkey=f'hom|{fk}|empty-multivector'))
+        else:
+            claims += _mat_claims('empty', Me, np.zeros((2 ** alg.d,) * 2, dtype=int), fkey=f'hom|{fk}|empty-multivector')
+            try:
+                claims += mv_eq_claims('frommatrix(empty)', MultiVector.frommatrix(alg, Me), {}, fkey=f'hom|{fk}|empty-multivector')
+            except Exception as e:  # noqa
+                claims.append(Fail('frommatrix(empty)', f'frommatrix(asmatrix(empty)) raises {type(e).__name__}: {e}', fkey=f'hom|{fk}|empty-multivector'))
         one = alg.multivector(keys=(0,), values=[1]).asmatrix()
         claims += _mat_claims('unit', one, np.eye(2 ** alg.d, dtype=int), fkey=f'hom|{fk}|unit')
         return claims
@@ -173,8 +183,12 @@ def run_case(desc, V):
             claims.append(Eq(f'first-column[{i}]', np.asarray(Mx, dtype=object)[i, 0], a if k == I else 0, fkey=f'hom|{fk}|first-column'))
         for J in desc['Js']:
             y = MultiVector.fromkeysvalues(alg, (J,), [b])
-            claims += _mat_claims(f'hom[{I},{J}]', (x * y).asmatrix() if len((x * y).keys()) else np.zeros((2 ** alg.d,) * 2, dtype=int),
-                                  Mx @ y.asmatrix(), fkey=f'hom|{fk}|multiplicative')
+            Mxy = (x * y).asmatrix()
+            if not hasattr(Mxy, 'shape') or tuple(Mxy.shape) != (2 ** alg.d,) * 2:
+                claims.append(Fail(f'hom[{I},{J}]:type', f'asmatrix() of the product of blades {I} and {J} (the empty multivector) is {Mxy!r}, not a {2 ** alg.d}x{2 ** alg.d} matrix',
+                                   fkey=f'hom|{fk}|empty-multivector'))
+                continue
+            claims += _mat_claims(f'hom[{I},{J}]', Mxy, Mx @ y.asmatrix(), fkey=f'hom|{fk}|multiplicative')
         return claims
     if kind == 'expr':
         return _run_expr(desc, V, alg)
